@@ -180,6 +180,9 @@ def run_case(spec_msgs, lead, chunk, fd_start=100):
     class Sender(protocol.BasicDBusProtocol):
         pass
 
+    class BigEndianCall(message.MethodCallMessage):
+        endian = ord('B')
+
     class Receiver(protocol.BasicDBusProtocol):
         def __init__(self): self.got = []
         def methodCallReceived(self, m): self.got.append(m)
@@ -210,7 +213,10 @@ def run_case(spec_msgs, lead, chunk, fd_start=100):
         arrays.append(as_array)
         shapes.append('struct' if as_struct else 'array' if as_array else 'flat')
         if kind == 'call':
-            m = message.MethodCallMessage('/o', 'M', interface='org.e.I', signature=sig, body=body, oobFDs=[])
+            # every fourth call is written big-endian (a message class may choose its byte order): the positions of its descriptors are
+            # numbers inside the message like any other
+            cls_ = BigEndianCall if (fd_counter[0] // 10) % 4 == 3 else message.MethodCallMessage
+            m = cls_('/o', 'M', interface='org.e.I', signature=sig, body=body, oobFDs=[])
         else:
             cls = {'ret': message.MethodReturnMessage, 'sig': message.SignalMessage}[kind]
             m = object.__new__(cls)
@@ -315,6 +321,43 @@ def auth_boundary_case():
                 return 'accepting side, %s: the descriptor arguments of the first messages resolve to %r, expected [[41, x, 42], [43]]' % (how, got)
     finally:
         protocol._is_linux = was
+    return None
+
+
+def unrouted_signal_case():
+    """a client connection: a descriptor-carrying signal that no match rule asks for (none registered any more) still uses up ITS
+    descriptors; the reply that follows gets its own"""
+    from twisted.internet import task
+    from twisted.internet.testing import StringTransport
+    from txdbus import client, message
+    client.reactor = task.Clock()
+    p = client.DBusClientConnection()
+    p.factory = client.DBusClientFactory()
+    p.transport = StringTransport()
+    p._receivedFDs = []
+    p.setAuthenticationSucceeded()
+    hello = list(p._pendingCalls)[0]
+    p.dataReceived(message.MethodReturnMessage(hello, signature='s', body=[':1.42']).rawMessage)
+    out = []
+    p.callRemote('/o', 'Open', interface='org.e.I', destination='org.e').addBoth(out.append)
+    serial = max(p._pendingCalls)
+    sig = object.__new__(message.SignalMessage)
+    sig.signature, sig.body = 'sh', ['stray', 0]
+    sig.path, sig.member, sig.interface = '/o', 'Stray', 'org.e.I'
+    sig._marshal(oobFDs=[])
+    ret = object.__new__(message.MethodReturnMessage)
+    ret.signature, ret.body = 'h', [0]
+    from txdbus import marshal as _m
+    ret.reply_serial = _m.UInt32(serial)
+    ret._marshal(oobFDs=[])
+    p.fileDescriptorReceived(60)
+    p.dataReceived(sig.rawMessage)
+    p.fileDescriptorReceived(70)
+    p.dataReceived(ret.rawMessage)
+    if out != [70]:
+        return 'a reply carrying descriptor 70, received after a signal with descriptor 60 that no rule asked for: the call completed with %r' % (out,)
+    if p._receivedFDs:
+        return 'descriptors left in the queue: %r' % (p._receivedFDs,)
     return None
 
 
@@ -471,6 +514,13 @@ def bounded(tier, seed):
         f = 'descriptors at the end of the authentication exchange raised %s: %s' % (type(e).__name__, e)
     if f:
         return n, f, {'case': 'descriptors with the last authentication line'}
+    n += 1
+    try:
+        f = unrouted_signal_case()
+    except Exception as e:
+        f = 'a descriptor-carrying signal without a rule raised %s: %s' % (type(e).__name__, e)
+    if f:
+        return n, f, {'case': 'descriptor-carrying signal no rule asks for'}
     n += 1
     try:
         f = foreign_index_case()
